@@ -143,6 +143,10 @@ def blockedFields (root : CTy) (defNames : List String) (cp : String) : Option (
         let all := rootFieldNames root defNames
         some ((if cp != "input" then [cp] else []) ++ all.filter (fun f => !valid.contains f))
 
+/-- cue.go getAvailableFieldsForValue at the root: every root field except `_dependencies`, by its bare name, that is not blocked -/
+def offeredFields (root : CTy) (defNames : List String) (cp : String) : Option (List String) :=
+  (blockedFields root defNames cp).map fun bl => (rootFieldNames root defNames).filter (fun f => !bl.contains f)
+
 inductive Step where
   | key (k : String)
   | elem            -- First() / Last() / Index(i): one element of a typed list
